@@ -8,7 +8,7 @@
   tables: `Scico.Proofs.WrapKwargs` + `Scico/Generated/Kwargs.lean`.
   All statements hold for every scalar type `α`, every number, shape and size of blocks.
 -/
-import Scico.Proofs.Wrap
+import Scico.Proofs.WrapLayout
 import Scico.Proofs.WrapKwargs
 import Mathlib.Order.Basic
 
@@ -27,14 +27,15 @@ theorem C18_join_split (r : Val α) (h : SplitShaped r) :
   splitVal_joinVal r h
 
 /-- flatten then un-flatten is the identity (arrays of any shape, block arrays of any block shapes) -/
-theorem C18_ravel_reshape (x : Val α) (h : x.WF) : unravel (ravel x) (shapeOf x) = some x :=
-  unravel_ravel x h
+theorem C18_ravel_reshape (x : Val α) (h : x.WF) (hv : (shapeOf x).Valid) :
+    unravel (ravel x) (shapeOf x) = some x :=
+  unravel_ravel x h hv
 
 /-- un-flatten then flatten is the identity: `_unravel` accepts exactly the vectors of the right
     length, gives the requested (nested) shape and keeps the order of the entries -/
-theorem C18_reshape_ravel (v : List α) (sh : Shape) (h : v.length = total sh) :
+theorem C18_reshape_ravel (v : List α) (sh : Shape) (hv : sh.Valid) (h : v.length = total sh) :
     ∃ x, unravel v sh = some x ∧ ravel x = v ∧ shapeOf x = sh ∧ x.WF :=
-  ravel_unravel v sh h
+  ravel_unravel v sh hv h
 
 /-- order: the flat vector is the concatenation of the blocks' row-major data in block order;
     for a complex start each block contributes its real parts followed by its imaginary parts -/
@@ -61,95 +62,139 @@ theorem C18_layout_array (a : Arr (Cx α)) (p : Nat) (hp : p < a.data.length) :
 /-- the function handed to scipy is `func ∘ join ∘ reshape`: at the flattening of any container
     `c` of the form of `x0` it takes the value `func c` (in particular at `x0` itself) -/
 theorem C18_objective {ρ : Type} (func : Container α → ρ) (c0 c : Container α) (hwf : c.WF)
-    (hform : SameForm c c0) : objective func c0 (x0flat c) = some (func c) := by
-  simp [objective, result_x0flat c c0 hwf hform]
+    (hform : SameForm c c0) (hv0 : (workShape c0).Valid) :
+    objective func c0 (x0flat c) = some (func c) := by
+  simp [objective, result_x0flat c c0 hwf hform hv0]
+
+/-- … and the extra arguments of `args=` reach `func` unchanged, after the container -/
+theorem C18_objective_args {ρ A : Type} (func : Container α → A → ρ) (c0 c : Container α) (hwf : c.WF)
+    (hform : SameForm c c0) (hv0 : (workShape c0).Valid) (args : A) :
+    objectiveArgs func c0 (x0flat c) args = some (func c args) := by
+  simp [objectiveArgs, result_x0flat c c0 hwf hform hv0]
 
 /-- the flat real problem is *equivalent*: flattening is a bijection between containers of the
     form of `x0` and real vectors of length `total`, inverse to what `minimize` does with
     scipy's answer -/
-theorem C18_bijection (c0 : Container α) (hwf0 : c0.WF) :
+theorem C18_bijection (c0 : Container α) (hwf0 : c0.WF) (hv0 : (workShape c0).Valid) :
     (∀ c, c.WF → SameForm c c0 →
         (x0flat c).length = total (workShape c0) ∧ result c0 (x0flat c) = some c) ∧
     (∀ v : List α, v.length = total (workShape c0) →
         ∃ c, result c0 v = some c ∧ x0flat c = v ∧ c.WF ∧ SameForm c c0) := by
   constructor
   · intro c hc hf
-    refine ⟨?_, result_x0flat c c0 hc hf⟩
+    refine ⟨?_, result_x0flat c c0 hc hf hv0⟩
     rw [total_workShape_eq c hc, hf.1]
   · intro v hv
-    exact x0flat_result c0 hwf0 v hv
+    exact x0flat_result c0 hwf0 hv0 v hv
 
 /-- changing one coordinate `j` of the flat vector changes the argument of `func` along the path of
     containers whose flattening differs in coordinate `j` only — by `C18_layout` that coordinate is the
     real or the imaginary part of one entry.  Hence the `j`-th partial derivative of the flat objective
     is the derivative of `func` with respect to that one real slot (`∂/∂re`, `∂/∂im`). -/
 theorem C18_coordinate_path {ρ : Type} (func : Container α → ρ) (c0 c : Container α) (hwf0 : c0.WF)
-    (hwf : c.WF) (hform : SameForm c c0) (j : Nat) (a : α) :
+    (hv0 : (workShape c0).Valid) (hwf : c.WF) (hform : SameForm c c0) (j : Nat) (a : α) :
     ∃ c', result c0 ((x0flat c).set j a) = some c' ∧ c'.WF ∧ SameForm c' c0 ∧
       x0flat c' = (x0flat c).set j a ∧
       objective func c0 ((x0flat c).set j a) = some (func c') := by
   have hlen : ((x0flat c).set j a).length = total (workShape c0) := by
     rw [List.length_set, total_workShape_eq c hwf, hform.1]
-  obtain ⟨c', hc', hfl, hw, hf⟩ := x0flat_result c0 hwf0 _ hlen
+  obtain ⟨c', hc', hfl, hw, hf⟩ := x0flat_result c0 hwf0 hv0 _ hlen
   exact ⟨c', hc', hw, hf, hfl, by simp [objective, hc']⟩
 
 /-- therefore: what scipy reports as a minimiser of the flat objective is returned as a
     minimiser of `func` among all containers of the form of `x0` -/
 theorem C18_minimiser {ρ : Type} [Preorder ρ] (func : Container α → ρ) (c0 : Container α)
-    (hwf0 : c0.WF) (v : List α) (hv : v.length = total (workShape c0))
+    (hwf0 : c0.WF) (hv0 : (workShape c0).Valid) (v : List α) (hv : v.length = total (workShape c0))
     (hmin : ∀ w : List α, w.length = total (workShape c0) →
       ∀ a b, objective func c0 v = some a → objective func c0 w = some b → a ≤ b) :
     ∃ c, result c0 v = some c ∧ c.WF ∧ SameForm c c0 ∧
       ∀ c', c'.WF → SameForm c' c0 → func c ≤ func c' := by
-  obtain ⟨c, hc, _, hcwf, hcf⟩ := x0flat_result c0 hwf0 v hv
+  obtain ⟨c, hc, _, hcwf, hcf⟩ := x0flat_result c0 hwf0 hv0 v hv
   refine ⟨c, hc, hcwf, hcf, ?_⟩
   intro c' hc' hf'
   have hlen : (x0flat c').length = total (workShape c0) := by
     rw [total_workShape_eq c' hc', hf'.1]
   exact hmin (x0flat c') hlen (func c) (func c') (by simp [objective, hc])
-    (by simp [objective, result_x0flat c' c0 hc' hf'])
+    (by simp [objective, result_x0flat c' c0 hc' hf' hv0])
 
-/-- the result has the container kind (array / block array, real / complex) and the shape of `x0` -/
-theorem C18_container (c0 : Container α) (hwf0 : c0.WF) (v : List α)
+/-- the result has the container kind (array / block array, real / complex) and the shape of `x0`
+    (for a complex start: the shape without the leading re/im axis of the work array) -/
+theorem C18_container (c0 : Container α) (hwf0 : c0.WF) (hv0 : (workShape c0).Valid) (v : List α)
     (hv : v.length = total (workShape c0)) :
-    ∃ c, result c0 v = some c ∧ c.WF ∧ workShape c = workShape c0 ∧
-      (match c, c0 with
-        | .real x, .real x0 => shapeOf x = shapeOf x0
-        | .cplx _, .cplx _ => True
-        | _, _ => False) := by
-  obtain ⟨c, hc, _, hcwf, hcf⟩ := x0flat_result c0 hwf0 v hv
-  refine ⟨c, hc, hcwf, hcf.1, ?_⟩
-  cases c <;> cases c0 <;> first | exact hcf.2 | simpa [workShape, prepare] using hcf.1
-
-/-- a complex container of the form of `x0` has the shape of `x0` (the split adds one leading axis) -/
-theorem C18_container_cplx_shape (x x0 : Val (Cx α))
-    (h : workShape (Container.cplx x) = workShape (Container.cplx x0)) : shapeOf x = shapeOf x0 := by
-  cases x <;> cases x0 <;> simp [workShape, prepare, splitVal, shapeOf, splitArr] at h ⊢
-  · exact h
-  · rename_i bs cs
-    have : ∀ (l1 l2 : List (Arr (Cx α))),
-        List.map (Arr.shape ∘ fun a => (⟨2 :: a.shape, a.data.map Cx.re ++ a.data.map Cx.im⟩ : Arr α)) l1 =
-        List.map (Arr.shape ∘ fun a => (⟨2 :: a.shape, a.data.map Cx.re ++ a.data.map Cx.im⟩ : Arr α)) l2 →
-        List.map Arr.shape l1 = List.map Arr.shape l2 := by
-      intro l1
-      induction l1 with
-      | nil => intro l2 h2; cases l2 <;> simp_all
-      | cons a t ih =>
-        intro l2 h2
-        cases l2 with
-        | nil => simp at h2
-        | cons b t2 =>
-          simp only [List.map_cons, List.cons.injEq, Function.comp] at h2 ⊢
-          exact ⟨by simpa using h2.1, ih t2 h2.2⟩
-    exact this bs cs h
+    ∃ c, result c0 v = some c ∧ c.WF ∧ c.isCplx = c0.isCplx ∧ c.shape = c0.shape := by
+  obtain ⟨c, hc, _, hcwf, hcf⟩ := x0flat_result c0 hwf0 hv0 v hv
+  exact ⟨c, hc, hcwf, sameForm_shape c c0 hcf⟩
 
 /-- the result dtype is the dtype of `x0` -/
 theorem C18_dtype (d : DT) : resultDType d = d := by cases d <;> rfl
 
 /-- a vector of the wrong length is rejected, never silently re-cut -/
-theorem C18_reject_length (v : List α) (s : List Nat) (h : v.length ≠ Wrap.sizeOf s) :
-    unravel v (.flat s) = none := by
-  simp [unravel, reshape, h]
+theorem C18_reject_length (v : List α) (sh : Shape) (hv : sh.Valid) (h : v.length ≠ total sh) :
+    unravel v sh = none :=
+  unravel_none_of_length v sh hv h
+
+/-- index form for block arrays: entry `p` of block `i` is flat coordinate `off + p`, where `off` is
+    the number of scalars of the blocks before it; for a complex block array the real part of entry
+    `p` of block `i` is coordinate `off + p` and its imaginary part `off + mᵢ + p`, `off` = twice the
+    number of entries of the blocks before, `mᵢ` the number of entries of block `i` -/
+theorem C18_layout_block (bs : List (Arr α)) (cs : List (Arr (Cx α))) :
+    (∀ (i : Nat) (hi : i < bs.length) (p : Nat) (hp : p < bs[i].data.length),
+      (x0flat (.real (.blk bs)))[((bs.take i).map (fun b => b.data.length)).sum + p]? = some bs[i].data[p]) ∧
+    (∀ (i : Nat) (hi : i < cs.length) (p : Nat) (hp : p < cs[i].data.length),
+      (x0flat (.cplx (.blk cs)))[((cs.take i).map (fun b => 2 * b.data.length)).sum + p]?
+          = some (cs[i].data[p]).re ∧
+      (x0flat (.cplx (.blk cs)))[((cs.take i).map (fun b => 2 * b.data.length)).sum + cs[i].data.length + p]?
+          = some (cs[i].data[p]).im) := by
+  constructor
+  · intro i hi p hp
+    have := getElem?_flatten_offset (bs.map Arr.data) i (by simpa using hi) p (by simpa using hp)
+    simp only [List.getElem_map, ← List.map_take, List.map_map] at this
+    simpa [x0flat, prepare, ravel, Function.comp_def, hp] using this
+  · intro i hi p hp
+    have e : x0flat (.cplx (.blk cs)) = (cs.map (fun b => b.data.map Cx.re ++ b.data.map Cx.im)).flatten := by
+      simp [x0flat, prepare, splitVal, ravel, splitArr, List.map_map, Function.comp_def]
+    have hoff : ((cs.take i).map (fun b => 2 * b.data.length)).sum =
+        (((cs.map (fun b => b.data.map Cx.re ++ b.data.map Cx.im)).take i).map List.length).sum := by
+      rw [← List.map_take, List.map_map]
+      congr 1
+      apply List.map_congr_left
+      intro b _
+      simp [Nat.two_mul]
+    rw [e, hoff]
+    constructor
+    · have := getElem?_flatten_offset (cs.map (fun b => b.data.map Cx.re ++ b.data.map Cx.im)) i
+        (by simpa using hi) p (by simp; omega)
+      rw [this]
+      simp only [List.getElem_map]
+      rw [List.getElem?_append_left (by simpa using hp)]
+      simp [hp]
+    · have := getElem?_flatten_offset (cs.map (fun b => b.data.map Cx.re ++ b.data.map Cx.im)) i
+        (by simpa using hi) (cs[i].data.length + p) (by simp; omega)
+      rw [Nat.add_assoc, this]
+      simp only [List.getElem_map]
+      rw [List.getElem?_append_right (by simp)]
+      simp [hp]
+
+/-- bounds in container form: comparing two containers of one form entry by entry (real and imaginary
+    parts separately) is comparing their flat vectors coordinate by coordinate.  Hence
+    `bounds = Bounds(flat(L), flat(U))` (flattened as `minimize` flattens `x0`) restricts scipy to
+    exactly the vectors whose container lies entrywise between `L` and `U`. -/
+theorem C18_bounds_layout (R : α → α → Prop) (c0 L : Container α) (hwf0 : c0.WF) (hv0 : (workShape c0).Valid)
+    (hL : L.WF) (hLf : SameForm L c0) (v : List α) (hv : v.length = total (workShape c0)) :
+    ∃ c, result c0 v = some c ∧ (List.Forall₂ R (x0flat L) v ↔ Container.Rel R L c) := by
+  obtain ⟨c, hc, hfl, hcwf, hcf⟩ := x0flat_result c0 hwf0 hv0 v hv
+  refine ⟨c, hc, ?_⟩
+  have hform : SameForm L c := by
+    refine ⟨hLf.1.trans hcf.1.symm, ?_⟩
+    cases L <;> cases c <;> cases c0 <;> simp_all [SameForm]
+  rw [← hfl]
+  exact x0flat_rel R L c hL hcwf hform
+
+/-- `minimize_scalar`: the wrapper hands scipy the value of a 0-d result and the single entry of a
+    `(1,)` result of `func` -/
+theorem C18_scalar_value (a : α) :
+    scalarOf (⟨[], [a]⟩ : Arr α) = some a ∧ scalarOf (⟨[1], [a]⟩ : Arr α) = some a :=
+  ⟨rfl, rfl⟩
 
 /-- Keyword routing (statement about any generated table `t`; `Generated/Kwargs.lean` instantiates
     it for the current `solver.py` by `decide`): no accepted keyword is silently ignored, the
@@ -189,6 +234,19 @@ example : unravel [1, 2, 3, 4, 5, 6] (.flat [2, 3]) = some (Val.arr ⟨[2, 3], [
 example : unravel [1, 2, 3, 4, 5] (.flat [2, 3]) = (none : Option (Val Int)) := by decide
 -- hypotheses of C18_minimiser are satisfiable: the objective Σ(entries) over Nat is minimised by 0
 example : total (workShape (Container.real (Val.arr (⟨[2], [5, 7]⟩ : Arr Nat)))) = 2 := by decide
+
+-- the hypotheses about shapes are satisfiable: `exC` has blocks, its work shape is ((2,2),(2,))
+example : (workShape (.cplx exC)).Valid := by decide
+example : workShape (.cplx exC) = .nested [[2, 2], [2]] := by decide
+-- block 1 (one entry 5+6i) of `exC`: offset 2*2 = 4; Re at 4, Im at 4 + 1
+example : (x0flat (.cplx exC))[4]? = some 5 ∧ (x0flat (.cplx exC))[5]? = some 6 := by decide
+-- wrong lengths are rejected for nested shapes too; `()` is the 0-d shape
+example : unravel [1, 2, 3, 4] (.nested [[2], [3]]) = (none : Option (Val Int)) := by decide
+example : unravel [7] (.nested []) = some (Val.arr (⟨[], [7]⟩ : Arr Int)) := by decide
+-- entrywise bounds: L = exC ≤ c  ⇔  flat(L) ≤ flat(c)
+example : Container.Rel (· ≤ ·) (.cplx exC) (.cplx (.blk [⟨[2], [⟨1, 2⟩, ⟨3, 5⟩]⟩, ⟨[], [⟨5, 6⟩]⟩])) := by
+  show List.Forall₂ _ _ _
+  refine .cons ⟨rfl, ?_⟩ (.cons ⟨rfl, ?_⟩ .nil) <;> simp [CxRel]
 
 end examples
 
